@@ -176,6 +176,19 @@ class RecTask(_m.Task):
         return val
 
 
+class DecodingTask(_m.Task):
+    """like the combinatorial example of the README: the objective works on the DECODED solution (labels), so anything
+    that changes the index -> label table (e.g. hash-dependent set order) changes costs and trajectories"""
+
+    def objective_function(self, x):
+        tr = self.transform_solution(x)
+        idx = []
+        for k, d in enumerate(self.data["desc"]["vars"]):
+            v = tr[f"v{k}"]
+            idx.append([int(str(q)[4:]) for q in v] if d["t"] == "perm" else v)
+        return objective(self.data["desc"], idx)
+
+
 class PlainTask(_m.Task):
     """same objective, nothing recorded (long sweeps)"""
 
